@@ -768,8 +768,8 @@ fn c08_eval_ops<D: Dec>(run: &mut Run, layout: usize, ops: &[Op]) {
                 Op::Word(w) => { let _ = k.add_word(*w); }
                 Op::Byte(b) => { let _ = k.add_byte(*b); }
                 Op::Event(key, s) => { let _ = k.process_keyevent(KeyEvent::new(*key, *s)); }
-                Op::Clear => k.clear(),
-                Op::SetCtrl(m) => k.set_ctrl_handling(*m),
+                Op::Clear => { let _ = k.clear(); }
+                Op::SetCtrl(m) => { let _ = k.set_ctrl_handling(*m); }
             }));
             if r.is_err() {
                 return Some(i);
@@ -790,8 +790,8 @@ fn c08_eval_ops<D: Dec>(run: &mut Run, layout: usize, ops: &[Op]) {
                         Op::Word(w) => { let _ = k.add_word(*w); }
                         Op::Byte(b) => { let _ = k.add_byte(*b); }
                         Op::Event(key, s) => { let _ = k.process_keyevent(KeyEvent::new(*key, *s)); }
-                        Op::Clear => k.clear(),
-                        Op::SetCtrl(m) => k.set_ctrl_handling(*m),
+                        Op::Clear => { let _ = k.clear(); }
+                        Op::SetCtrl(m) => { let _ = k.set_ctrl_handling(*m); }
                     }
                 }
             })
